@@ -226,6 +226,10 @@ func (g *Gen) GenEdit(c int, root *yjson.Object) *Edit {
 		l := have[kind]
 		return l[g.R.IntN(len(l))]
 	}
+	if g.on("yson") && g.R.IntN(25) == 0 && len(have["obj"]) > 0 {
+		t := pick("obj")
+		return &Edit{K: "o.yson", P: t.path, Key: "y" + string(rune('0'+g.R.IntN(2))), Y: g.ysonLiteral(c, 0)}
+	}
 	switch f {
 	case "create":
 		objs := have["obj"]
@@ -463,4 +467,61 @@ func isConservationKey(k string) bool {
 		}
 	}
 	return true
+}
+
+// ysonLiteral generates a YSON literal of every element type.
+func (g *Gen) ysonLiteral(c int, depth int) string {
+	prim := func() string {
+		switch g.R.IntN(7) {
+		case 0:
+			return fmt.Sprintf("Int(%d)", g.uniqInt(c)%100000)
+		case 1:
+			return fmt.Sprintf("Long(%d)", g.uniqInt(c)<<20)
+		case 2:
+			return "null"
+		case 3:
+			return "true"
+		case 4:
+			return fmt.Sprintf("%d.5", g.uniqInt(c)%1000)
+		case 5:
+			return `BinData("AQID")`
+		default:
+			return fmt.Sprintf("%q", g.uniq(c))
+		}
+	}
+	if depth >= 2 {
+		return prim()
+	}
+	switch g.R.IntN(8) {
+	case 0:
+		n := g.R.IntN(4)
+		s := "{"
+		for i := 0; i < n; i++ {
+			if i > 0 {
+				s += ","
+			}
+			s += fmt.Sprintf("%q:%s", fmt.Sprintf("k%d", i), g.ysonLiteral(c, depth+1))
+		}
+		return s + "}"
+	case 1:
+		n := g.R.IntN(4)
+		s := "["
+		for i := 0; i < n; i++ {
+			if i > 0 {
+				s += ","
+			}
+			s += g.ysonLiteral(c, depth+1)
+		}
+		return s + "]"
+	case 2:
+		return fmt.Sprintf(`Text([{"val":%q,"attrs":{"b":"1"}},{"val":%q}])`, g.textContent(c), g.textContent(c))
+	case 3:
+		return fmt.Sprintf(`Tree({"type":"doc","children":[{"type":"p","attrs":{"a":"1"},"children":[{"type":"text","value":%q}]},{"type":"p","children":[]}]})`, g.treeText(c))
+	case 4:
+		return fmt.Sprintf("Counter(Int(%d))", g.R.IntN(100))
+	case 5:
+		return fmt.Sprintf("Counter(Long(%d))", int64(g.R.IntN(100))<<33)
+	default:
+		return prim()
+	}
 }
